@@ -84,6 +84,11 @@ package selector
 //@           decreases end - i
 //@ func (Selector).Select
 //@   inline
+//@ func (Selector).String
+//@   ensures [C09] total: true
+//@   assigns [C20] nothing
+//@   loop 0: invariant 0 <= k && k <= len(s)
+//@           decreases len(s) - k
 //@
 //@ // ---- C14: a selector text is interpreted in full or rejected -------------------------------------------------------
 //@ // tokenize cuts the text at every '.' and '[' outside quotes: the first token starts the text, the last one ends it
